@@ -47,3 +47,19 @@ package utils
 //@   ensures[C08:positive] r0 >= 1
 //@   ensures[C08:lower] real(r0) >= 0.9 * real(backoffTarget(retryCount)) - 2
 //@   ensures[C08:upper] real(r0) <= 1.1 * real(backoffTarget(retryCount)) + 2
+
+// ---- entry points used by the agent's main package (contracts carried across the package boundary) ----
+//@ func NewResponseForwarder props(C05,C06,C07)
+//@   requires r != nil
+//@   assigns nothing
+//@   go-opaque NewResponseForwarder$1
+//@   go-opaque NewResponseForwarder$2
+//@   ensures r1 == nil && r0 != nil
+
+//@ func ListPendingRequests props(C07)
+//@   requires client != nil
+//@   assigns nothing
+
+//@ func ReadRequest props(C01,C04,C07)
+//@   requires client != nil
+//@   assigns heap
